@@ -326,47 +326,41 @@ func BuildCompletions(spec *wire.CompSpec, line []rune, cursor int) readline.Com
 		ws--
 	}
 	prefix := string(line[ws:cursor])
-	byTag := map[string][]string{}
-	var tags []string
+	// One Completions value with per-candidate tags: merging several of them goes through
+	// a Go map in the library and would make the group order differ from run to run.
+	tagOf := map[string]string{}
 	described := false
+	tagged := false
 	for _, c := range spec.Cands {
 		if c.Desc != "" {
 			described = true
 		}
+		if c.Tag != "" {
+			tagged = true
+		}
 	}
+	var vals []string
 	for _, c := range spec.Cands {
 		if spec.PrefixOnly && !strings.HasPrefix(c.Value, prefix) {
 			continue
 		}
-		if _, ok := byTag[c.Tag]; !ok {
-			tags = append(tags, c.Tag)
-		}
+		tagOf[c.Value] = c.Tag
 		if described {
-			byTag[c.Tag] = append(byTag[c.Tag], c.Value, c.Desc)
+			vals = append(vals, c.Value, c.Desc)
 		} else {
-			byTag[c.Tag] = append(byTag[c.Tag], c.Value)
+			vals = append(vals, c.Value)
 		}
 	}
 	var all readline.Completions
-	first := true
-	for _, tag := range tags {
-		var c readline.Completions
-		if described {
-			c = readline.CompleteValuesDescribed(byTag[tag]...)
-		} else {
-			c = readline.CompleteValues(byTag[tag]...)
-		}
-		if tag != "" {
-			c = c.Tag(tag)
-		}
-		c = c.NoSort()
-		if first {
-			all = c
-			first = false
-		} else {
-			all = all.Merge(c)
-		}
+	if described {
+		all = readline.CompleteValuesDescribed(vals...)
+	} else {
+		all = readline.CompleteValues(vals...)
 	}
+	if tagged {
+		all = all.TagF(func(value string) string { return tagOf[value] })
+	}
+	all = all.NoSort()
 	if spec.NoSpace != "" {
 		all = all.NoSpace([]rune(spec.NoSpace)...)
 	}
